@@ -84,6 +84,8 @@ Begin(c) ==
   /\ mon = -1
   \* one retail-waste level per scenario: every food eaten by people is grossed up with it
   /\ Ck("RetailWasteAsConfigured", \A w \in {c.wSf, c.wCrop, c.wMeat, c.wScp, c.wCs, c.wSw} : Eq(w, c.wRetail))
+  \* the unit everything is measured in: the monthly requirement of the run's population (30 days at the daily requirement)
+  /\ Ck("RequirementIsPopulationNeed", Eq(c.popNeed, One) /\ Eq(c.monthDays, I(30)))
   /\ Ck("WasteFactors", /\ IsGross(c.gSf, c.wSf) /\ IsGross(c.gCrop, c.wCrop) /\ IsGross(c.gMeat, c.wMeat)
                         /\ IsGross(c.gScp, c.wScp) /\ IsGross(c.gCs, c.wCs) /\ IsGross(c.gSw, c.wSw))
   /\ rc' = c
